@@ -198,7 +198,7 @@ Definition c06_step_ok (L : limits) (prev : option obs) (e : ev) (o : obs) (l l'
    unique. The ids of inbound connections were drawn from the shared counter (AllocConn) and are
    used once; the id of an outbound connection is one the manager dialled for that very peer.
    After the first event that breaks this, nothing more is judged. *)
-Definition c06_feasible (prev : option obs) (e : ev) (alloc : list N) (l : live_t) : bool :=
+Definition c06_feasible (prev : option obs) (e : ev) (alloc : list N) (l : live_t) (accs : list N) : bool :=
   match e with
   | TrEstablished p c lst _ =>
       negb (existsb (fun x : N * (N * bool) => fst x =? c) l) &&
@@ -208,21 +208,26 @@ Definition c06_feasible (prev : option obs) (e : ev) (alloc : list N) (l : live_
            | None => false
            end
   | Closed p c => match lookup c l with Some (q, _) => q =? p | None => true end
+  | AcceptDone c _ => mem c accs            (* only an existing accept future can resolve *)
   | _ => true
   end.
 
 Fixpoint c06_ok (L : limits) (prev : option obs) (es : list ev) (tr : list obs) (l : live_t)
-         (alloc : list N) : bool :=
+         (alloc accs : list N) : bool :=
   match es, tr with
   | _, [] => true
   | e :: es', o :: tr' =>
-      if c06_feasible prev e alloc l then
+      if c06_feasible prev e alloc l accs then
         let l' := live_step e o l in
         let alloc' := match e with
                       | AllocConn => if 101 <=? o_ret o then (o_ret o - 101) :: alloc else alloc
                       | TrEstablished _ c true _ => filter (fun y => negb (y =? c)) alloc
                       | _ => alloc end in
-        c06_step_ok L prev e o l l' && c06_ok L (Some o) es' tr' l' alloc'
+        let accs' := match e with
+                     | TrEstablished _ c _ f => if has_call 5 c o && negb f then c :: accs else accs
+                     | AcceptDone c _ => filter (fun y => negb (y =? c)) accs
+                     | _ => accs end in
+        c06_step_ok L prev e o l l' && c06_ok L (Some o) es' tr' l' alloc' accs'
       else true
   | [], _ :: _ => false
   end.
@@ -372,7 +377,7 @@ Definition prop_ok_C06 (case trace : list N) : bool :=
   match decode_case case with
   | Some (L, es) =>
       match decode_trace (length es) trace with
-      | Some tr => c06_ok L None es tr [] []
+      | Some tr => c06_ok L None es tr [] [] []
       | None => false
       end
   | None => match trace with [0] => true | _ => false end
